@@ -9,6 +9,7 @@ import PyIkev2.Model.Toy
 import PyIkev2.Model.NegotiateCmd
 import PyIkev2.Model.SelectorsCmd
 import PyIkev2.Model.KeysCmd
+import PyIkev2.Model.NetlinkCmd
 
 open PyIkev2 PyIkev2.Impl
 
@@ -50,7 +51,7 @@ def step (line : String) : String :=
   match (line.trimAscii.toString.splitOn " ").filter (· ≠ "") with
   | [] => "bad-op"
   | cmd :: args =>
-    match (((codecCmd cmd args).orElse (fun _ => NegotiateCmd.cmd cmd args)).orElse (fun _ => SelectorsCmd.cmd cmd args)).orElse (fun _ => KeysCmd.cmd cmd args) with
+    match ((((codecCmd cmd args).orElse (fun _ => NegotiateCmd.cmd cmd args)).orElse (fun _ => SelectorsCmd.cmd cmd args)).orElse (fun _ => KeysCmd.cmd cmd args)).orElse (fun _ => NetlinkCmd.cmd cmd args) with
     | some out => out
     | none => "bad-op"
 
